@@ -342,6 +342,16 @@ pub fn run_c20(p: &mut Prng, tier: Tier, i: usize, sink: &mut Sink) {
             }
             f.exec(t.call.clone());
             f.bump(&format!("history.entry.{}", t.name));
+            // history: after a malformed input the same entry point is given a well-formed one
+            // (whatever the first call left behind - an error path's scratch state, a poisoned
+            // lock - the second must still end in Ok or Err)
+            if k % 8 == 3 {
+                if let Some(valid) = &t.valid {
+                    f.exec(set("x.in", valid));
+                    f.exec(t.call.clone());
+                    f.bump("history.entry.well-formed-after-malformed");
+                }
+            }
             sink.done(f);
         }
         if chunk == 0 {
